@@ -204,6 +204,117 @@ example :
       let r := filterRun [] o [⟨.int 3, none⟩, ⟨.str "s", none⟩, ⟨.bool true, none⟩]
       (r.1.map (·.data), r.2)) = some ([.int 3, .bool true], none) := by decide
 
+/-! ### `Not` and exceptions, at any depth -/
+
+/-- **"Not negates"**, with the exception cases spelled out: `Not(s, raise_on_error=r')` on a value where
+`s` (as a selector with inherited `r'`) gives a boolean gives its negation; where `s` raises, the
+exception is re-raised iff `r'` is `True`, otherwise the value is selected ("a full negation") — whatever
+`raise_on_error` the surrounding container passes down (`r`) -/
+theorem not_sem (r r' : Bool) (s : Spec) (v : Item) :
+    (∀ b, sem names r' s v = .ok b → sem names r (.notI s r') v = .ok (!b)) ∧
+    (∀ e, sem names r' s v = .raise e →
+      sem names r (.notI s r') v = if r' then .raise e else .ok true) := by
+  constructor
+  · intro b h; rw [sem, h]; cases r' <;> rfl
+  · intro e h; rw [sem, h]; cases r' <;> rfl
+
+/-- "if selector is a Selector with raise_on_error=False, this raise_on_error will have no effect": around
+`Selector(s, raise_on_error=False)` both settings of `Not` give the same boolean -/
+theorem not_of_absorbing (r r' : Bool) (s : Spec) (v : Item) :
+    sem names r (.notI (.selI s false) r') v = .ok (!decide (sem names false s v = .ok true)) := by
+  rw [sem, sem, absorb_false_ok]
+  cases r' <;> rfl
+
+/-- double negation: `Not(Not(s, r1), r2)` gives back the boolean of `s`; when `s` raises, the inner `Not`
+re-raises (`r1`) — and then the outer one re-raises or selects (`r2`) — or selects, and the outer rejects -/
+theorem not_not_sem (r r1 r2 : Bool) (s : Spec) (v : Item) :
+    (∀ b, sem names r1 s v = .ok b → sem names r (.notI (.notI s r1) r2) v = .ok b) ∧
+    (∀ e, sem names r1 s v = .raise e → sem names r (.notI (.notI s r1) r2) v =
+      if r1 then (if r2 then .raise e else .ok true) else .ok false) := by
+  constructor
+  · intro b h
+    rw [(not_sem names r r2 (.notI s r1) v).1 (!b) ((not_sem names r2 r1 s v).1 b h)]
+    simp
+  · intro e h
+    have h1 := (not_sem names r2 r1 s v).2 e h
+    cases r1
+    · simp only [Bool.false_eq_true, if_false] at h1 ⊢
+      rw [(not_sem names r r2 _ v).1 true h1]; rfl
+    · simp only [if_true] at h1 ⊢
+      exact (not_sem names r r2 _ v).2 e h1
+
+example :
+    let raising := Spec.fn (fun _ => .raise "Other:ZeroDivisionError")
+    let v : Item := ⟨.int 1, none⟩
+    (mkSelector true (.notI raising false)).map (fun o => call [] o v) = some (.ok true) ∧
+    (mkSelector true (.notI raising true)).map (fun o => call [] o v) = some (.raise "Other:ZeroDivisionError") ∧
+    (mkSelector true (.notI (.notI raising true) false)).map (fun o => call [] o v) = some (.ok true) ∧
+    (mkSelector true (.notI (.notI raising false) true)).map (fun o => call [] o v) = some (.ok false) ∧
+    (mkSelector true (.notI (.selI raising false) true)).map (fun o => call [] o v) = some (.ok true) := by
+  decide
+
+/-! ### filters and `RunIf` inside a sequence -/
+
+/-- **two `Filter`s in a `Sequence` are one `Filter` with the AND of the selectors** — including which
+exception stops the flow and when -/
+theorem filter_seq_eq_and (a b : Obj) (r : Bool) (vs : List Item) :
+    filterSeqRun names a b vs = filterRun names (.andO [a, b] r) vs := by
+  induction vs with
+  | nil => rfl
+  | cons v rest ih =>
+    rw [filterSeqRun, filterRun, call, callAll, callAll, callAll]
+    cases ha : call names a v with
+    | raise e => rfl
+    | ok ba =>
+      cases ba with
+      | false => simp only [ih]
+      | true =>
+        cases hb : call names b v with
+        | raise e => rfl
+        | ok bb => cases bb <;> simp only [ih]
+
+/-- … and the second filter may as well be run on what the first one yields: an exception of the second
+precedes the one that stopped the first -/
+theorem filter_seq_eq_stages (a b : Obj) (vs : List Item) :
+    filterSeqRun names a b vs =
+      ((filterRun names b (filterRun names a vs).1).1,
+        ((filterRun names b (filterRun names a vs).1).2).orElse (fun _ => (filterRun names a vs).2)) := by
+  induction vs with
+  | nil => rfl
+  | cons v rest ih =>
+    rw [filterSeqRun, filterRun]
+    cases ha : call names a v with
+    | raise e => rfl
+    | ok ba =>
+      cases ba with
+      | false => simp only [ih]
+      | true =>
+        simp only []
+        rw [filterRun]
+        cases hb : call names b v with
+        | raise e => rfl
+        | ok bb => cases bb <;> simp only [ih]
+
+/-- **`RunIf`**: up to the first value on which the selector raises, selected values are replaced by what
+the sequence makes of them, the others pass unchanged, in order -/
+theorem runif_spec (o : Obj) (seq : Item → List Item) (vs : List Item) :
+    runIfRun names o seq vs =
+      ((beforeError names o vs).flatMap (fun v => if call names o v = .ok true then seq v else [v]),
+        firstError names o vs) := by
+  induction vs with
+  | nil => simp [runIfRun, beforeError, firstError]
+  | cons v rest ih =>
+    unfold beforeError at ih ⊢
+    rw [runIfRun, firstError, List.takeWhile_cons]
+    cases h : call names o v with
+    | raise e => simp [Res.isOk]
+    | ok b => cases b <;> simp [Res.isOk, ih, h]
+
+example :
+    (runIfInit (.cls .int)).map (fun o =>
+      let r := runIfRun [] o (fun v => [v, v]) [⟨.int 3, none⟩, ⟨.str "s", none⟩]
+      (r.1.map (·.data), r.2)) = some ([.int 3, .int 3, .str "s"], none) := by decide
+
 end Sem
 
 /-! ## Part 2 — include/exclude trees -/
@@ -416,6 +527,266 @@ example :
 
 example : WFV 3 (.dict [some (.dict [none, some (.leaf (.int 1)), some (.leaf (.int 5))]), none, none]) := by
   simp [WFV, WFL]
+
+/-! ### all accepted key sets (overlaps included), rejected key sets, decided forms -/
+
+theorem selC_eq_flipWalk : ∀ (p : Path) (I E : List Path) (d : Bool), selC I E d p = flipWalk I E d p
+  | [], _, _, _ => rfl
+  | k :: p, I, E, d => by
+    rw [selC, selC_eq_flipWalk p]
+    unfold flipWalk
+    rw [prefixesAsc_cons, List.foldl_cons, foldl_flip_map I E k _ _ (fun q hq => ne_nil_of_mem_prefixesAsc hq)]
+
+theorem selC_snoc : ∀ (pre : Path) (k : Nat) (I E : List Path) (d : Bool),
+    selC I E d (pre ++ [k]) =
+      if pre ++ [k] ∈ oppOf I E (selC I E d pre) then !selC I E d pre else selC I E d pre
+  | [], k, I, E, d => rfl
+  | a :: pre, k, I, E, d => by
+    rw [List.cons_append, selC, selC, selC_snoc pre k]
+    have : (pre ++ [k] ∈ oppOf (tailsNE a I) (tailsNE a E)
+        (selC (tailsNE a I) (tailsNE a E) (if [a] ∈ oppOf I E d then !d else d) pre)) ↔
+        (a :: (pre ++ [k]) ∈ oppOf I E
+          (selC (tailsNE a I) (tailsNE a E) (if [a] ∈ oppOf I E d then !d else d) pre)) := by
+      rw [oppOf_tails, mem_tailsNE]; simp
+    by_cases h : pre ++ [k] ∈ oppOf (tailsNE a I) (tailsNE a E)
+        (selC (tailsNE a I) (tailsNE a E) (if [a] ∈ oppOf I E d then !d else d) pre)
+    · rw [if_pos h, if_pos (this.1 h)]
+    · rw [if_neg h, if_neg (fun h' => h (this.2 h'))]
+
+/-- with no path listed twice the code's rule is the longest-prefix rule -/
+theorem selC_eq_sel_of_disjoint : ∀ (p : Path) (I E : List Path) (d : Bool), Disjoint I E →
+    selC I E d p = sel I E d p
+  | [], _, _, _, _ => rfl
+  | k :: p, I, E, d, h => by
+    rw [selC, sel, selC_eq_sel_of_disjoint p _ _ _ (disjoint_tails k I E h)]
+    congr 1
+    cases d
+    · by_cases h1 : [k] ∈ I <;> simp [oppOf, h1]
+    · by_cases h2 : [k] ∈ E
+      · have h1 : [k] ∉ I := fun h1 => h [k] h1 h2
+        simp [oppOf, h1, h2]
+      · by_cases h1 : [k] ∈ I <;> simp [oppOf, h1, h2]
+
+/-- **`make_include_exclude_tree` rejects exactly the improperly nested key sets** (`LenaValueError`), with or
+without overlaps -/
+theorem make_rejects_iff : ∀ (f : Nat) (I E : List Path) (d : Bool), max (depthOf I) (depthOf E) < f →
+    (make f I E d = .valueError ↔ ∃ pre k, ExtraAt I E d pre k)
+  | 0, _, _, _, h => by omega
+  | f + 1, I, E, d, hf => by
+    have hfuel : ∀ k ∈ heads (oppOf I E d), max (depthOf (tailsNE k I)) (depthOf (tailsNE k E)) < f := by
+      intro k hk
+      have h1 := depthOf_tailsNE k I
+      have h2 := depthOf_tailsNE k E
+      cases d
+      · have hpos := depth_pos_of_head (show k ∈ heads I from hk); omega
+      · have hpos := depth_pos_of_head (show k ∈ heads E from hk); omega
+    have hopp : (if d = true then E else I) = oppOf I E d := rfl
+    have hsame : (if d = true then I else E) = sameOf I E d := rfl
+    rw [make_succ, hopp, hsame,
+      makeStep_valueError_iff (g := fun k => make f (tailsNE k I) (tailsNE k E) (newIncl k (oppOf I E d) d))
+        (fun k hk => make_not_fuel f _ _ _ (hfuel k hk))]
+    constructor
+    · rintro (⟨k, hks, hko⟩ | ⟨k, hk, hp, hg⟩)
+      · refine ⟨[], k, ?_, ?_⟩
+        · obtain ⟨t, ht⟩ := (mem_heads k _).1 hks
+          exact ⟨t, by simpa [selC] using ht⟩
+        · intro t ht
+          exact hko ((mem_heads k _).2 ⟨t, by simpa [selC] using ht⟩)
+      · rw [make_rejects_iff f _ _ _ (hfuel k hk)] at hg
+        obtain ⟨pre, k', ⟨t, ht⟩, hno⟩ := hg
+        refine ⟨k :: pre, k', ⟨t, ?_⟩, ?_⟩
+        · rw [selC, ← newIncl_eq]
+          rw [sameOf_tails, mem_tailsNE] at ht
+          simpa using ht.2
+        · intro t' ht'
+          rw [selC, ← newIncl_eq] at ht'
+          apply hno t'
+          rw [oppOf_tails, mem_tailsNE]
+          exact ⟨by simp, by simpa using ht'⟩
+    · rintro ⟨pre, k', ⟨t, ht⟩, hno⟩
+      cases pre with
+      | nil =>
+        left
+        refine ⟨k', (mem_heads k' _).2 ⟨t, by simpa [selC] using ht⟩, ?_⟩
+        intro hk
+        obtain ⟨t', ht'⟩ := (mem_heads k' _).1 hk
+        exact hno t' (by simpa [selC] using ht')
+      | cons k pre =>
+        by_cases hex : ∃ k, k ∈ heads (sameOf I E d) ∧ k ∉ heads (oppOf I E d)
+        · exact Or.inl hex
+        · right
+          have hnex : ∀ x, x ∈ heads (sameOf I E d) → x ∈ heads (oppOf I E d) := by
+            intro x hx
+            cases Classical.em (x ∈ heads (oppOf I E d)) with
+            | inl h => exact h
+            | inr h => exact absurd ⟨x, hx, h⟩ hex
+          rw [selC, ← newIncl_eq] at ht hno
+          have hk_np : k ∈ heads (oppOf I E d) ∧ isProper k (oppOf I E d) (sameOf I E d) = false := by
+            rcases mem_sameOf_or ht d with h | h
+            · have hks : k ∈ heads (sameOf I E d) := (mem_heads k _).2 ⟨_, by simpa using h⟩
+              refine ⟨hnex k hks, ?_⟩
+              simp [isProper, hks]
+            · refine ⟨(mem_heads k _).2 ⟨_, by simpa using h⟩, ?_⟩
+              have hmt : (pre ++ k' :: t) ∈ tailsOf k (oppOf I E d) := (mem_tailsOf k _ _).2 (by simpa using h)
+              have : tailsOf k (oppOf I E d) ≠ [[]] := by
+                intro e
+                rw [e] at hmt
+                simp at hmt
+              simp [isProper, this]
+          refine ⟨k, hk_np.1, hk_np.2, ?_⟩
+          rw [make_rejects_iff f _ _ _ (hfuel k hk_np.1)]
+          refine ⟨pre, k', ⟨t, ?_⟩, ?_⟩
+          · rw [sameOf_tails, mem_tailsNE]
+            exact ⟨by simp, by simpa using ht⟩
+          · intro t' ht'
+            rw [oppOf_tails, mem_tailsNE] at ht'
+            exact hno t' (by simpa using ht'.2)
+
+theorem rejectsB_iff (I E : List Path) (d : Bool) : rejectsB I E d = true ↔ ∃ pre k, ExtraAt I E d pre k := by
+  unfold rejectsB ExtraAt
+  simp only [List.any_eq_true, List.mem_flatMap, List.mem_append, Bool.and_eq_true, Bool.not_eq_true',
+    List.any_eq_false, List.isPrefixOf_iff_prefix]
+  constructor
+  · rintro ⟨q, ⟨p, _, hq⟩, ⟨p1, hp1, hpre1⟩, hno⟩
+    rw [mem_prefixesAsc] at hq
+    obtain ⟨pre, k, rfl⟩ : ∃ pre k, q = pre ++ [k] := by
+      rcases List.eq_nil_or_concat q with h | ⟨l, a, h⟩
+      · exact absurd h hq.1
+      · exact ⟨l, a, by simpa using h⟩
+    rw [List.dropLast_concat] at hp1 hno
+    refine ⟨pre, k, ?_, ?_⟩
+    · obtain ⟨t, rfl⟩ := (prefix_snoc_iff pre k p1).1 hpre1
+      exact ⟨t, hp1⟩
+    · intro t ht
+      exact hno _ ht ((prefix_snoc_iff pre k _).2 ⟨t, rfl⟩)
+  · rintro ⟨pre, k, ⟨t, ht⟩, hno⟩
+    refine ⟨pre ++ [k], ⟨pre ++ k :: t, ?_, ?_⟩, ?_, ?_⟩
+    · cases hc : selC I E d pre <;> simp [sameOf, hc] at ht <;> simp [ht]
+    · rw [mem_prefixesAsc]
+      exact ⟨by simp, (prefix_snoc_iff pre k _).2 ⟨t, rfl⟩⟩
+    · rw [List.dropLast_concat]
+      exact ⟨_, ht, (prefix_snoc_iff pre k _).2 ⟨t, rfl⟩⟩
+    · rw [List.dropLast_concat]
+      intro p hp hpre
+      obtain ⟨t', rfl⟩ := (prefix_snoc_iff pre k p).1 hpre
+      exact hno t' hp
+
+theorem disjointB_iff (I E : List Path) : disjointB I E = true ↔ Disjoint I E := by
+  unfold disjointB Disjoint
+  simp only [List.all_eq_true, Bool.not_eq_true', List.contains_eq_mem, decide_eq_false_iff_not]
+
+theorem agreeOnB_iff (pol : Path → Bool) (c1 c2 : Val) : agreeOnB pol c1 c2 = true ↔ AgreeOn pol c1 c2 := by
+  unfold agreeOnB AgreeOn
+  simp only [List.all_eq_true, List.mem_append, Bool.or_eq_true, Bool.not_eq_true', decide_eq_true_eq]
+  constructor
+  · intro h p hp
+    by_cases h1 : p ∈ allPathsV c1
+    · rcases h p (Or.inl h1) with h' | h'
+      · rw [hp] at h'; cases h'
+      · exact h'
+    · by_cases h2 : p ∈ allPathsV c2
+      · rcases h p (Or.inr h2) with h' | h'
+        · rw [hp] at h'; cases h'
+        · exact h'
+      · rw [mem_allPathsV] at h1 h2
+        have e1 : atPath c1 p = none := by cases h : atPath c1 p <;> simp_all
+        have e2 : atPath c2 p = none := by cases h : atPath c2 p <;> simp_all
+        simp [seen, e1, e2]
+  · intro h p _
+    cases hp : pol p with
+    | false => exact Or.inl rfl
+    | true => exact Or.inr (h p hp)
+
+mutual
+theorem wfV_iff (n : Nat) : ∀ v : Val, wfV n v = true ↔ WFV n v
+  | .leaf _ => by simp [wfV, WFV]
+  | .dict l => by simp [wfV, WFV_dict, wfL_iff n l]
+theorem wfL_iff (n : Nat) : ∀ l : Slots, wfL n l = true ↔ WFL n l
+  | [] => by simp [wfL, WFL]
+  | none :: r => by rw [wfL, WFL_cons_none]; exact wfL_iff n r
+  | some v :: r => by simp [wfL, WFL_cons_some, wfV_iff n v, wfL_iff n r]
+end
+/-- **`IncludeExcludeTree.get` for every accepted key set — no hypothesis** (paths listed in both
+`group_by` and `merge` allowed): `get(context)` is the part of the context selected by the rule `selC`:
+the polarity of a path is that of its parent (the root: where `""` is listed), flipped exactly when the
+path is listed in the set opposite to the parent's polarity (`selC_snoc`).  With no path listed twice this
+is the longest-prefix rule (`selC_eq_polarity_of_disjoint`). -/
+theorem iet_get_general (f : Nat) (I E : List Path) (d : Bool) (T : Tree) (h : make f I E d = .ok T)
+    (ctx : Slots) : getL T 0 ctx = keepL (selC I E d) 0 ctx :=
+  (make_specC f I E d T h).2.1 0 ctx
+
+theorem selC_eq_polarity_of_disjoint (I E : List Path) (d : Bool) (h : Disjoint I E) :
+    selC I E d = polarity I E d := by
+  funext p
+  rw [selC_eq_sel_of_disjoint p I E d h, sel_eq_polarity]
+
+/-- **the exact rule for an overlap**: a path listed in both sets takes the polarity opposite to its
+parent's — the entry of the set opposite to the enclosing default wins — whereas a path listed in one set
+only takes that set's polarity -/
+theorem overlap_rule (I E : List Path) (d : Bool) (pre : Path) (k : Nat) :
+    (pre ++ [k] ∈ I → pre ++ [k] ∈ E → selC I E d (pre ++ [k]) = !selC I E d pre) ∧
+    (pre ++ [k] ∈ I → pre ++ [k] ∉ E → selC I E d (pre ++ [k]) = true) ∧
+    (pre ++ [k] ∉ I → pre ++ [k] ∈ E → selC I E d (pre ++ [k]) = false) ∧
+    (pre ++ [k] ∉ I → pre ++ [k] ∉ E → selC I E d (pre ++ [k]) = selC I E d pre) := by
+  rw [selC_snoc]
+  cases selC I E d pre <;> simp [oppOf] <;> intros <;> simp_all
+
+/-- accepted = properly nested: with enough fuel `make` returns a tree iff no key path is improperly
+nested -/
+theorem make_accepts_iff (f : Nat) (I E : List Path) (d : Bool) (hf : max (depthOf I) (depthOf E) < f) :
+    (∃ T, make f I E d = .ok T) ↔ ¬ ∃ pre k, ExtraAt I E d pre k := by
+  rw [← make_rejects_iff f I E d hf]
+  have hnf := make_not_fuel f I E d hf
+  cases h : make f I E d with
+  | ok T => simp
+  | valueError => simp
+  | fuel => simp [h, Made.isFuel] at hnf
+
+/-- `make_include_exclude_tree(includes, excludes)` raises `LenaValueError` exactly when the root `""` is
+not in exactly one of the two, or some key has an empty sub-key, or the key sets are improperly nested -/
+theorem make_include_exclude_tree_rejects_iff (names includes excludes : List String) :
+    makeIncludeExcludeTree names includes excludes = .valueError ↔
+      (includes.contains "" = excludes.contains "") ∨
+      splitKeys names includes = none ∨ splitKeys names excludes = none ∨
+      ∃ I E, splitKeys names includes = some I ∧ splitKeys names excludes = some E ∧
+        rejectsB I E (includes.contains "") = true := by
+  unfold makeIncludeExcludeTree
+  simp only []
+  by_cases hroot : (includes.contains "" == excludes.contains "") = true
+  · rw [if_pos hroot]
+    simp only [true_iff]
+    exact Or.inl (by simpa using hroot)
+  · rw [if_neg hroot]
+    have hroot' : ¬ (includes.contains "" = excludes.contains "") := by simpa using hroot
+    cases hI : splitKeys names includes with
+    | none => simp
+    | some I =>
+      cases hE : splitKeys names excludes with
+      | none => simp
+      | some E =>
+        simp only [rejectsB_iff, hroot', false_or, reduceCtorEq, Option.some.injEq, exists_and_left,
+          exists_eq_left']
+        exact make_rejects_iff _ I E _ (by unfold makeFuel; omega)
+
+/-- `a.b` in `group_by` with the root in `group_by` too: `a.b` is within nothing of `merge` — rejected -/
+example : rejectsB [[0, 1]] [] true = true := by decide
+example : ExtraAt [[0, 1]] [] true [] 0 := ⟨⟨[1], by simp [selC, sameOf]⟩, by simp [selC, oppOf]⟩
+/-- … whereas within `a` of `merge` it is accepted -/
+example : rejectsB [[0, 1]] [[0]] true = false := by decide
+/-- an accepted overlap: `a` in both sets, root in `group_by`: `a` is excluded -/
+example : rejectsB [[0]] [[0]] true = false ∧ selC [[0]] [[0]] true [0] = false ∧
+    polarity [[0]] [[0]] true [0] = true := by decide
+
+/-- `_startswith(s1, s2)` is "`s1` is a prefix of `s2`" -/
+theorem startsWith_iff : ∀ (s1 s2 : List String), startsWith s1 s2 = true ↔ s1 <+: s2
+  | [], s2 => by simp [startsWith]
+  | a :: r, [] => by simp [startsWith]
+  | a :: r1, b :: r2 => by
+    rw [startsWith, List.cons_prefix_cons]
+    by_cases h : b = a
+    · subst h; simp [startsWith_iff r1 r2]
+    · have : ¬ a = b := fun e => h e.symm
+      simp [h, this]
 
 /-! ## Part 3 — `GroupBy` -/
 
